@@ -300,3 +300,99 @@ def closure_mutations(outer):
 
     visit(outer, [])
     return out
+
+
+def check_flow_to_iter(ctx, rule, why):
+    """flow_to_iter(flow) must return an *iterator*: its argument unchanged only where that has been found to have a next
+    method (`hasattr(flow, "__next__")`, or "next" for Python 2), iter(flow) everywhere else.  Decided on every return path."""
+    from .. import paths as P
+    res = ctx.res
+    fn = ctx.tree.func("lena.core.functions", "flow_to_iter")
+    par = A.func_params(fn)[0]
+    n = 0
+    for p in P.paths_of(fn):
+        if p.end != "return":
+            continue
+        rets = [e[1] for e in p.ev if e[0] == "stmt" and isinstance(e[1], ast.Return)]
+        if not rets or rets[-1].value is None:
+            ctx.violation(rule, fn, "flow_to_iter returns nothing on the path [%s]" % p.describe(3), construct="flow-to-iter-none", path=p)
+            continue
+        n += 1
+        v = rets[-1].value
+        if isinstance(v, ast.Name) and v.id != par:
+            defs = [e[1].value for e in p.ev if e[0] == "stmt" and isinstance(e[1], ast.Assign) and len(e[1].targets) == 1
+                    and isinstance(e[1].targets[0], ast.Name) and e[1].targets[0].id == v.id]
+            v = defs[-1] if defs else v
+        if isinstance(v, ast.Call) and res.call_canon(v) == "builtins.iter" and len(v.args) == 1 and A.src(v.args[0]) == par:
+            ctx.ok(rule, rets[-1], "flow_to_iter: iter(%s) [%s]" % (par, p.describe(2)))
+            continue
+        # the positive literals of the path, with a taken `or` contributing its disjuncts' conjunctions
+        def establishes(t, pol):
+            if isinstance(t, ast.BoolOp) and isinstance(t.op, ast.Or) and pol:
+                return all(establishes(x, True) for x in t.values)
+            if isinstance(t, ast.BoolOp) and isinstance(t.op, ast.And) and pol:
+                return any(establishes(x, True) for x in t.values)
+            return pol and isinstance(t, ast.Call) and A.call_name(t) == "hasattr" and len(t.args) == 2 and A.src(t.args[0]) == par \
+                and A.const(t.args[1]) in ("__next__", "next")
+        has_next = any(establishes(t, pol) for t, pol in p.literals())
+        ok = isinstance(v, ast.Name) and v.id == par and has_next
+        ctx.check(rule, ok, rets[-1], "flow_to_iter returns `%s` on the path [%s], where %s has not been found to be an iterator "
+                  "(hasattr(%s, '__next__')): a re-iterable that is not a list or tuple -- range, deque, a dictionary view -- is "
+                  "handed on as it is; %s" % (A.short(v, 40), p.describe(4), par, par, why),
+                  detail="flow_to_iter returns its argument only when it has a next method [%s]" % p.describe(2),
+                  construct="flow-to-iter-not-iterator", path=p)
+    ctx.instances_floor(rule + "/flow_to_iter", n, 2, "return paths of flow_to_iter")
+
+
+_MATERIALISERS = ("builtins.list", "builtins.tuple", "builtins.sorted", "builtins.set", "builtins.frozenset", "builtins.dict",
+                  "collections.deque", "builtins.len", "builtins.sum", "builtins.max", "builtins.min")
+
+
+_LAZY_VIEWS = ("builtins.iter", "itertools.islice", "itertools.chain", "builtins.zip", "builtins.map", "builtins.filter",
+               "builtins.enumerate", "lena.core.functions.flow_to_iter", "itertools.tee", "itertools.takewhile", "itertools.dropwhile",
+               "itertools.zip_longest", "itertools.chain.from_iterable")
+
+
+def swallowed_pulls(tree, res, modules=None):
+    """[(module, function, try node, handler, pulling node)]: a try statement of a flow-processing function (one with a `flow`
+    parameter) with a handler that does not re-raise and catches something other than StopIteration -- the protocol's own end
+    signal -- while its body pulls from the flow (mentions the flow parameter or a lazy view of it).  An error raised upstream
+    while the value is produced would be taken for the element's own condition and swallowed."""
+    out = []
+    for mod, fn in tree.functions():
+        if modules is not None and mod.name not in modules:
+            continue
+        params = [p for p in A.func_params(fn) if p not in ("self", "cls")]
+        if "flow" not in params:
+            continue
+        lazy = {"flow"}
+        changed = True
+        while changed:
+            changed = False
+            for st in A.walk_local(fn):
+                if isinstance(st, ast.Assign) and len(st.targets) == 1 and isinstance(st.targets[0], ast.Name) and st.targets[0].id not in lazy:
+                    v = st.value
+                    if isinstance(v, ast.Name) and v.id in lazy:
+                        lazy.add(st.targets[0].id)
+                        changed = True
+                    elif isinstance(v, ast.GeneratorExp) and any(isinstance(x, ast.Name) and x.id in lazy for g in v.generators for x in ast.walk(g.iter)):
+                        lazy.add(st.targets[0].id)
+                        changed = True
+                    elif isinstance(v, ast.Call) and ((res.call_canon(v) or "") in _LAZY_VIEWS or (
+                            isinstance(v.func, ast.Attribute) and v.func.attr == "run")) and any(
+                            isinstance(x, ast.Name) and x.id in lazy for a in list(v.args) + [k.value for k in v.keywords] for x in ast.walk(a)):
+                        lazy.add(st.targets[0].id)
+                        changed = True
+        for tr in A.walk_local(fn):
+            if not isinstance(tr, ast.Try):
+                continue
+            for h in tr.handlers:
+                if any(isinstance(x, ast.Raise) for x in ast.walk(h)):
+                    continue
+                types = [h.type] if h.type is not None and not isinstance(h.type, ast.Tuple) else (list(h.type.elts) if h.type is not None else [None])
+                if all(t is not None and (res.canon(t) or A.src(t)).endswith("StopIteration") for t in types):
+                    continue
+                pulls = [x for st in tr.body for x in A.walk_local(st) if isinstance(x, ast.Name) and isinstance(x.ctx, ast.Load) and x.id in lazy]
+                if pulls:
+                    out.append((mod, fn, tr, h, pulls[0]))
+    return out
